@@ -63,6 +63,28 @@ class _Canon(ast.NodeTransformer):
             return ast.copy_location(lit(elts=node.args[0].elts, ctx=ast.Load()), node)
         return node
 
+    def visit_If(self, node: ast.If):
+        # if (x := E) is None: ...   ->   x = E; if x is None: ...   (only where the binding is evaluated unconditionally, first)
+        self.generic_visit(node)
+        pre = []
+
+        def first(e, put):
+            """the assignment expression evaluated first and always when *e* is evaluated"""
+            if isinstance(e, ast.NamedExpr) and isinstance(e.target, ast.Name):
+                pre.append(ast.copy_location(ast.Assign(targets=[ast.Name(e.target.id, ast.Store())], value=e.value), node))
+                put(ast.copy_location(ast.Name(e.target.id, ast.Load()), e))
+            elif isinstance(e, ast.UnaryOp) and isinstance(e.op, ast.Not):
+                first(e.operand, lambda v: setattr(e, "operand", v))
+            elif isinstance(e, ast.Compare):
+                first(e.left, lambda v: setattr(e, "left", v))
+            elif isinstance(e, ast.BoolOp):
+                first(e.values[0], lambda v: e.values.__setitem__(0, v))
+        first(node.test, lambda v: setattr(node, "test", v))
+        if pre:
+            ast.fix_missing_locations(pre[0])
+            return pre + [node]
+        return node
+
     def visit_JoinedStr(self, node: ast.JoinedStr):
         # f"({a}) + ({b})"  is  "({}) + ({})".format(a, b): one spelling of a text template for the rules
         self.generic_visit(node)
@@ -102,8 +124,25 @@ class _Canon(ast.NodeTransformer):
                     return ast.copy_location(c, node)
         return node
 
+    def _hoist_walrus(self, node):
+        # T += (v := E) / x = (v := E):  v = E; T += v   (E without calls: evaluating it first changes nothing)
+        val = node.value
+        if isinstance(val, ast.NamedExpr) and isinstance(val.target, ast.Name) and not any(isinstance(x, (ast.Call, ast.Yield, ast.Await)) for x in ast.walk(val.value)):
+            pre = ast.copy_location(ast.Assign(targets=[ast.Name(val.target.id, ast.Store())], value=val.value, lineno=node.lineno), node)
+            node.value = ast.copy_location(ast.Name(val.target.id, ast.Load()), val)
+            return ast.fix_missing_locations(pre)
+        return None
+
     def visit_Assign(self, node: ast.Assign):
         self.generic_visit(node)
+        pre = self._hoist_walrus(node)
+        if pre is not None:
+            rest = self.visit_Assign(node)
+            return [pre] + (rest if isinstance(rest, list) else [rest])
+        # t1[k] = t2[k] = v  with v a plain name or constant: one store each
+        if len(node.targets) >= 2 and isinstance(node.value, (ast.Name, ast.Constant)) \
+                and all(isinstance(t, (ast.Subscript, ast.Attribute)) and not any(isinstance(x, ast.Call) for x in ast.walk(t)) for t in node.targets):
+            return [ast.copy_location(ast.Assign(targets=[t], value=copy.deepcopy(node.value), lineno=node.lineno), node) for t in node.targets]
         # row = table[k] = {}  (a name and a slot bound to the same fresh value):  table[k] = {}; row = table[k]
         if len(node.targets) == 2 and not isinstance(node.value, (ast.Yield, ast.Await)):
             names = [t for t in node.targets if isinstance(t, ast.Name)]
@@ -138,6 +177,10 @@ class _Canon(ast.NodeTransformer):
 
     def visit_AugAssign(self, node: ast.AugAssign):
         self.generic_visit(node)
+        pre = self._hoist_walrus(node)
+        if pre is not None:
+            rest = self.visit_AugAssign(node)
+            return [pre] + (rest if isinstance(rest, list) else [rest])
         if isinstance(node.op, ast.Add) and isinstance(node.value, ast.List) and len(node.value.elts) == 1 \
                 and isinstance(node.target, (ast.Name, ast.Attribute, ast.Subscript)) and not isinstance(node.value.elts[0], ast.Starred):
             tgt = copy.deepcopy(node.target)
@@ -736,6 +779,26 @@ class _Unroll(ast.NodeTransformer):
                 and isinstance(c.args[1], ast.Constant) and isinstance(c.args[1].value, str) and c.args[1].value.isidentifier():
             tgt = ast.Attribute(value=c.args[0], attr=c.args[1].value, ctx=ast.Store())
             return ast.copy_location(ast.Assign(targets=[ast.copy_location(tgt, c)], value=c.args[2], lineno=node.lineno), node)
+        # T.extend(E for v in xs if c):  for v in xs: if c: T.append(E)     (T a plain path that the comprehension does not read)
+        if isinstance(c, ast.Call) and isinstance(c.func, ast.Attribute) and c.func.attr == "extend" and len(c.args) == 1 and not c.keywords \
+                and isinstance(c.args[0], (ast.GeneratorExp, ast.ListComp)) and len(c.args[0].generators) == 1 \
+                and not any(isinstance(x, ast.Call) for x in ast.walk(c.func.value)) \
+                and ast.unparse(c.func.value) not in ast.unparse(c.args[0]):
+            g = c.args[0].generators[0]
+            app = ast.Expr(value=ast.Call(func=ast.Attribute(value=c.func.value, attr="append", ctx=ast.Load()), args=[c.args[0].elt], keywords=[]))
+            body = [app]
+            for cond in reversed(g.ifs):
+                body = [ast.If(test=cond, body=body, orelse=[])]
+            tgt = copy.deepcopy(g.target)
+            for x in ast.walk(tgt):
+                if hasattr(x, "ctx"):
+                    x.ctx = ast.Store()
+            loop = ast.For(target=tgt, iter=g.iter, body=body, orelse=[], lineno=node.lineno)
+            ast.copy_location(loop, node)
+            for x in ast.walk(loop):
+                if not hasattr(x, "lineno") and isinstance(x, (ast.stmt, ast.expr)):
+                    ast.copy_location(x, node)
+            return ast.fix_missing_locations(loop)
         return node
 
     def visit_Call(self, node: ast.Call):
